@@ -8,7 +8,7 @@ CLAIMED = {
               "at 3 of {2,3,4,8,16} threads with random yields/spins injected at lock, lease and parallel-loop points; every output "
               "relation must equal the -j1 output as a set, no duplicates, no abort or sanitizer report. Evidence counts the runs in "
               "which >= 2 worker threads passed perturbation points. Held on the programs and schedules explored (hundreds quick, "
-              "tens of thousands thorough); interpreter only."),
+              "thousands thorough); interpreter only."),
         note="trusts: OS scheduler + injected perturbation reach the relevant interleavings; compiled executables not covered; whole-program TSan not used (uninstrumented libomp barriers make its reports undecidable here)",
         design="6 C03",
     ),
@@ -71,7 +71,7 @@ PENDING = {
         text=("Generated programs (typed, stratified, terminating by construction; negation, constraints, functors, records, ADTs, disjunction, "
               "multiple heads, range, all five aggregates incl. empty sets, linear/non-linear/mutual recursion, eqrel) are run by the real "
               "interpreter and every output relation is compared as a set, and checked for duplicates, against a naive stratified "
-              "evaluation by an independent Python model. Held on the programs explored (~1.7k quick, ~40k thorough). One recorded finding "
+              "evaluation by an independent Python model. Held on the programs explored (~1.7k quick, ~12.6k thorough). One recorded finding "
               "(aggregate made recursive by MaterializeAggregationQueries), one repaired defect."),
         note="trusts: the model's value semantics (written from the documentation); generator distribution; cases that produce NaN/-0.0 or leave the defined domain are discarded",
         design="6 C01",
@@ -197,7 +197,7 @@ PENDING.update({
               "builds (generated C++ compiled with the tree's own compiler wrapper, sometimes -j4) and, for a third, by souffle -C "
               "(multi-file); all output relations must agree with each other and with the reference model. Since the interpreter "
               "stores every non-eqrel relation in a B-tree, this is where brie is really exercised at program level."),
-        note="compile-bound: tens of programs per quick run, hundreds thorough; trusts the reference model",
+        note="compile-bound: tens of programs per quick run, 128 thorough; trusts the reference model",
         design="6 C02",
     ),
     "C09": dict(
